@@ -35,9 +35,10 @@ pub const P45: &str = "C45";
 pub const P23: &str = "C23";
 
 pub const N_TOKENS: usize = 7;
-/// Markets 0..4 share (SOL, USDC); 4 has a foreign short token, 5 a foreign long token.
+/// Markets 0..4 share (SOL, USDC); 4 has a foreign short token, 5 a foreign long token, 6 has the GLV's own two
+/// tokens in reversed roles (long USDC, short SOL).
 pub const N_COMPAT: usize = 4;
-pub const N_MARKETS: usize = 6;
+pub const N_MARKETS: usize = 7;
 pub const N_USERS: usize = 3;
 const EXEC_LAMPORTS: u64 = 5_000_000;
 const USD: u128 = 100_000_000_000_000_000_000; // 10^20
@@ -167,7 +168,7 @@ fn build_base() -> Base {
             TokenSpec { name: "USDT", decimals: 6, precision: 6, synthetic: false, schema: 3, heartbeat: 120 },
             TokenSpec { name: "JTO", decimals: 9, precision: 5, synthetic: false, schema: 3, heartbeat: 120 },
         ],
-        markets: vec![(0, 0, 1), (2, 0, 1), (3, 0, 1), (4, 0, 1), (0, 0, 5), (0, 6, 1)],
+        markets: vec![(0, 0, 1), (2, 0, 1), (3, 0, 1), (4, 0, 1), (0, 0, 5), (0, 6, 1), (0, 1, 0)],
         n_users: N_USERS,
         user_token_amount: 1_000_000_000_000_000,
         start_ts: 1_700_000_000,
@@ -1726,7 +1727,7 @@ impl Scenario for GlvHistory {
 
     fn rule(&self) -> String {
         format!(
-            "glv_history(focus={}): base world = 7 tokens, 4 markets sharing (SOL,USDC) with index SOL/BTC/ETH/DOGE, one market with a foreign short token, one with a foreign long token, 3 users seeding every market; per run a swarm configuration (sub-batch plain 4/8, lifecycle-fault 3/8, misconfiguration 1/8; 2-4 GLV markets; feed spread 0-100 bps; positions on/off) and a plan of 5-50 steps (15 %: 60-160): initialize_glv over a subset, flag toggles, per-market max_amount/max_value (none, zero, tiny, typical, huge), insert (same tokens, foreign long, foreign short, mixed market/token accounts, stranger), remove, GLV config, GLV deposits (market tokens, long/short tokens, both; min outputs too high), withdrawals, keeper shifts, each as create/execute/close flows with duplicates, delays, crashes, wrong closers, injected CPI failures and expiry in the fault batch, price moves, clock advances with or without fresh prices, plain market deposits/withdrawals, dust into vaults, fork probes (deposit+withdraw round trip, cap edge). A case is one executed plan step; distinct = outcome trigrams (role, op, outcome class) plus (GLV size, live actions, supply zero, funded markets) fingerprints.",
+            "glv_history(focus={}): base world = 7 tokens, 4 markets sharing (SOL,USDC) with index SOL/BTC/ETH/DOGE, one market with a foreign short token, one with a foreign long token, one with the same two tokens in reversed roles, 3 users seeding every market; per run a swarm configuration (sub-batch plain 4/8, lifecycle-fault 3/8, misconfiguration 1/8; 2-4 GLV markets; feed spread 0-100 bps; positions on/off) and a plan of 5-50 steps (15 %: 60-160): initialize_glv over a subset, flag toggles, per-market max_amount/max_value (none, zero, tiny, typical, huge), insert (same tokens, foreign long, foreign short, mixed market/token accounts, stranger), remove, GLV config, GLV deposits (market tokens, long/short tokens, both; min outputs too high), withdrawals, keeper shifts, each as create/execute/close flows with duplicates, delays, crashes, wrong closers, injected CPI failures and expiry in the fault batch, price moves, clock advances with or without fresh prices, plain market deposits/withdrawals, dust into vaults, fork probes (deposit+withdraw round trip, cap edge). A case is one executed plan step; distinct = outcome trigrams (role, op, outcome class) plus (GLV size, live actions, supply zero, funded markets) fingerprints.",
             self.focus
         )
     }
